@@ -103,6 +103,32 @@ func c17Inits() []c17init {
 			}})
 		}
 	}
+	// how the pre-bound entries are named: the name of an entry says nothing, its index attribute binds it.
+	// Names in the library's own creation pattern ("rtmr<digit>-<digits>") for the index the entry is bound
+	// to, for the next index, and for the reversed index; and names that sort after / look like attribute names
+	namings := []struct {
+		name string
+		of   func(i int) string
+	}{
+		{"own-pattern", func(i int) string { return fmt.Sprintf("rtmr%d-%d", i, 1234567+i) }},
+		{"pattern-of-next-index", func(i int) string { return fmt.Sprintf("rtmr%d-%d", (i+1)%4, 7654321+i) }},
+		{"pattern-of-reversed-index", func(i int) string { return fmt.Sprintf("rtmr%d-%d", 3-i, 42+i) }},
+		{"attribute-like", func(i int) string { return []string{"index", "digest", "tcg_map", "rtmr"}[i] }},
+	}
+	for mask := 1; mask < 16; mask++ {
+		for _, nm := range namings {
+			mask, nm := mask, nm
+			out = append(out, c17init{fmt.Sprintf("prebound=%04b,names=%s", mask, nm.name), func() *world.TSM {
+				t := world.NewTSM()
+				for i := 0; i < 4; i++ {
+					if mask&(1<<i) != 0 {
+						t.Precreate(nm.of(i), i, "")
+					}
+				}
+				return t
+			}})
+		}
+	}
 	return out
 }
 
